@@ -430,6 +430,139 @@ Proof.
   - cbn [fst map filter List.length]. rewrite K. destruct (uci_line l); reflexivity.
 Qed.
 
+
+(* ------------------------------------------------------------------ end of input: never starved *)
+(* The reader thread delivers end of input as a final `quit` line (with_eof).  The main loop never reads past it: whatever the lines, their timing
+   and the deadline oracles, the session ends by Exit unless one of the executed commands itself panics (malformed arguments: the UPanic
+   branches of uci_step) -- the branch of uci_run that finds the channel empty (`unreachable!()` in the source) is never taken.  The delicate
+   case is a search running while the final `quit` arrives: the poll hands it back and the main loop executes it next. *)
+Definition ends_quit (input : list (nat * string)) : Prop := exists pre d, input = (pre ++ [(d, "quit")])%list.
+Definition quit_ahead (pending : option string) (input : list (nat * string)) : Prop := pending = Some "quit" \/ ends_quit input.
+
+Lemma ends_quit_suffix a b : b <> [] -> ends_quit (a ++ b)%list -> ends_quit b.
+Proof.
+  intros NE (pre & d & E). destruct (exists_last NE) as (b' & x & Eb). subst b.
+  rewrite app_assoc in E. apply app_inj_tail in E. destruct E as [_ ->]. exists b', d. reflexivity.
+Qed.
+
+Lemma nth_error_last_snd (pre : list (nat * string)) x : nth_error (map snd (pre ++ [x])%list) (List.length (pre ++ [x])%list - 0 - 1) = Some (snd x).
+Proof.
+  rewrite app_length. cbn [List.length]. replace (List.length pre + 1 - 0 - 1)%nat with (List.length pre) by lia.
+  rewrite map_app, nth_error_app2 by (rewrite map_length; lia). rewrite map_length, Nat.sub_diag. reflexivity.
+Qed.
+
+Lemma step_keeps_quit_ahead extra dl u l input u' outs rq input' :
+  uci_step extra dl u l input = (u', outs, rq, input', Continue) -> ends_quit input -> quit_ahead rq input'.
+Proof.
+  unfold uci_step. cbn zeta.
+  repeat match goal with
+         | |- (if ?c then _ else _) = _ -> _ => destruct c
+         | |- match ?x with _ => _ end = _ -> _ => destruct x eqn:?
+         | |- (let '(_, _) := ?x in _) = _ -> _ => destruct x eqn:?
+         end;
+    intros H EQ; try discriminate H; try (injection H as <- <- <- <-; right; exact EQ).
+  (* the search branch *)
+  match goal with E : poll_schedule _ _ _ _ = (_, _, _) |- _ =>
+    pose proof (poll_schedule_suffix _ _ _ _ _ _ _ E) as (tk & P & Q0 & Q) end.
+  injection H as <- <- <- <-.
+  destruct l0 as [|r0 rest'].
+  - (* the polls took everything: the last line taken is the final quit, which a poll hands back *)
+    left. rewrite app_nil_r in P. subst tk. destruct EQ as (pre & d & EI).
+    destruct o as [[k b]|].
+    + destruct (Q k b eq_refl) as (pre' & lst & T & _ & D). rewrite EI in T. apply app_inj_tail in T. destruct T as [_ <-].
+      cbn [snd] in D. change (trim "quit") with "quit" in D. rewrite poll_quit in D. destruct b; [|discriminate D].
+      rewrite EI. cbn [List.length]. rewrite nth_error_last_snd. reflexivity.
+    + specialize (Q0 eq_refl). rewrite EI in Q0. apply Forall_app in Q0. destruct Q0 as [_ Q0]. inversion Q0 as [|x xs Hx _]. subst.
+      cbn [snd] in Hx. change (trim "quit") with "quit" in Hx. rewrite poll_quit in Hx. destruct Hx; discriminate.
+  - right. rewrite P in EQ. apply (ends_quit_suffix tk); [discriminate|exact EQ].
+Qed.
+
+Definition step_panics (extra : N) (ul : ustate * string) : Prop :=
+  exists dl input, snd (uci_step extra dl (fst ul) (snd ul) input) = UPanic.
+
+Lemma uci_run_exits extra fuel : forall dls u pending input,
+  measure pending input < fuel -> quit_ahead pending input ->
+  snd (uci_run extra dls fuel u pending input) = Exit \/ Exists (step_panics extra) (uci_exec extra dls fuel u pending input).
+Proof.
+  induction fuel as [|f IH]; intros dls u pending input M QA; [lia|].
+  cbn [uci_run uci_exec].
+  assert (HN : forall l input', measure None input' + 1 <= measure pending input -> (l = "quit" \/ ends_quit input') ->
+     snd (let '(u', outs, requeue, input'', st) := uci_step extra (List.hd O dls) u l input' in
+          match st with
+          | Continue => let '(outs', st') := uci_run extra (List.tl dls) f u' requeue input'' in ((outs ++ outs')%list, st')
+          | _ => (outs, st)
+          end) = Exit \/
+     Exists (step_panics extra)
+       (let '(u', outs, requeue, input'', st) := uci_step extra (List.hd O dls) u l input' in
+        (u, l) :: match st with Continue => uci_exec extra (List.tl dls) f u' requeue input'' | _ => [] end)).
+  { intros l input' ML QL.
+    destruct QL as [-> | EQ]; [rewrite step_quit; left; reflexivity|].
+    destruct (uci_step extra (List.hd O dls) u l input') as [[[[u' outs] rq] input''] st] eqn:E.
+    destruct (uci_step_input _ _ _ _ _ _ _ _ _ _ E) as [L1 L2].
+    destruct st.
+    - assert (M' : measure rq input'' < f).
+      { unfold measure in *. destruct rq; [specialize (L2 ltac:(discriminate))|]; lia. }
+      destruct (IH (List.tl dls) u' rq input'' M' (step_keeps_quit_ahead _ _ _ _ _ _ _ _ _ E EQ)) as [K|K].
+      + left. destruct (uci_run extra (List.tl dls) f u' rq input'') as [o s]. exact K.
+      + right. apply Exists_cons_tl. exact K.
+    - left. reflexivity.
+    - right. apply Exists_cons_hd. exists (List.hd O dls), input'. cbn [fst snd]. rewrite E. reflexivity. }
+  destruct pending as [l|].
+  - apply HN; [unfold measure; lia|]. destruct QA as [QA|QA]; [injection QA as ->; left; reflexivity|right; exact QA].
+  - destruct QA as [QA|QA]; [discriminate QA|].
+    destruct input as [|[d l] r]. { destruct QA as (pre & d & E). destruct pre; discriminate E. }
+    apply (HN l r); [unfold measure; cbn [List.length]; lia|].
+    destruct r as [|x r'].
+    + left. destruct QA as (pre & d' & E). destruct pre as [|y pre]; [injection E as _ ->; reflexivity|].
+      injection E as _ E. destruct pre; discriminate E.
+    + right. apply (ends_quit_suffix [(d, l)]); [discriminate|exact QA].
+Qed.
+
+Theorem C13_a_session_ends_by_quit_unless_a_command_panics : forall extra dls input,
+  snd (uci_session extra dls input) = Exit \/
+  Exists (step_panics extra) (uci_exec extra dls (2 * List.length (with_eof input) + 2) init_ustate None (with_eof input)).
+Proof.
+  intros extra dls input. unfold uci_session.
+  replace (2 * List.length input + 4)%nat with (2 * List.length (with_eof input) + 2)%nat by (unfold with_eof; rewrite app_length; cbn; lia).
+  apply uci_run_exits; [unfold measure; lia|]. right. exists input, O. reflexivity.
+Qed.
+
+(* non-vacuity: a session with a search during which `isready` and the final quit arrive ends by Exit *)
+Example C13_session_with_search_exits :
+  snd (uci_session 0 [] [(O, "position startpos moves e2e4"); (O, "go depth 1"); (O, "isready")]) = Exit.
+Proof. vm_compute. reflexivity. Qed.
+
+
+(* only `quit` / `exit` / `x` ends the loop, and the farewell line is the last thing a session that ends by Exit prints *)
+Lemma step_exit_prints_farewell extra dl u l input u' outs rq input' :
+  uci_step extra dl u l input = (u', outs, rq, input', Exit) -> outs = [OText " Exited!"].
+Proof.
+  unfold uci_step. cbn zeta.
+  repeat match goal with
+         | |- (if ?c then _ else _) = _ -> _ => destruct c
+         | |- match ?x with _ => _ end = _ -> _ => destruct x eqn:?
+         | |- (let '(_, _) := ?x in _) = _ -> _ => destruct x eqn:?
+         end;
+    intros H; try discriminate H; injection H as <- <- <- <-; reflexivity.
+Qed.
+
+Theorem C13_a_session_that_exits_prints_the_farewell_last : forall extra fuel dls u pending input,
+  snd (uci_run extra dls fuel u pending input) = Exit ->
+  exists outs, fst (uci_run extra dls fuel u pending input) = (outs ++ [OText " Exited!"])%list.
+Proof.
+  intros extra fuel. induction fuel as [|f IH]; intros dls u pending input; [discriminate|].
+  cbn [uci_run].
+  destruct (match pending with Some l => Some (l, input) | None => match input with [] => None | (_, l) :: r => Some (l, r) end end) as [[l input']|]; [|discriminate].
+  destruct (uci_step extra (List.hd O dls) u l input') as [[[[u' outs] rq] input''] st] eqn:E.
+  destruct st.
+  - specialize (IH (List.tl dls) u' rq input''). destruct (uci_run extra (List.tl dls) f u' rq input'') as [outs' st']. cbn [fst snd] in *.
+    intros X. destruct (IH X) as (o & ->). exists (outs ++ o)%list. rewrite app_assoc. reflexivity.
+  - intros _. cbn [fst]. rewrite (step_exit_prints_farewell _ _ _ _ _ _ _ _ _ E). exists []. reflexivity.
+  - discriminate.
+Qed.
+
+Print Assumptions C13_a_session_that_exits_prints_the_farewell_last.
+Print Assumptions C13_a_session_ends_by_quit_unless_a_command_panics.
 Print Assumptions C13_uciok.
 Print Assumptions C13_every_uci_of_a_session_is_answered_exactly_once.
 Print Assumptions C03_every_line_of_a_session_is_executed_in_a_legal_position.
